@@ -90,8 +90,8 @@ func (o OneOfSchema[KeyType]) UnserializeType(data any) (result any, err error) 
 	}
 
 	typedData := make(map[string]any, reflectedValue.Len())
-	for _, k := range reflectedValue.MapKeys() {
-		v := reflectedValue.MapIndex(k)
+	for iter := reflectedValue.MapRange(); iter.Next(); {
+		k, v := iter.Key(), iter.Value()
 		keyString, ok := k.Interface().(string)
 		if !ok {
 			return result, &ConstraintError{
